@@ -82,44 +82,60 @@ func CreateConsensusRawMessage(message ConsensusMessage) *ConsensusRawMessage {
 	return rawMessage
 }
 
-func ToConsensusMessage(consensusMessage *ConsensusRawMessage) ConsensusMessage {
-	var message ConsensusMessage
-	lhContentReader := protocol.LeanhelixContentReader(consensusMessage.Content)
+// returns nil when the content is not a well formed message of one of the known types
+func ToConsensusMessage(consensusMessage *ConsensusRawMessage) (message ConsensusMessage) {
+	if consensusMessage == nil || len(consensusMessage.Content) == 0 {
+		return nil
+	}
 
-	if lhContentReader.IsMessagePreprepareMessage() {
+	// the readers slice the buffer by the sizes written inside it, so malformed content makes them panic
+	defer func() {
+		if r := recover(); r != nil {
+			message = nil
+		}
+	}()
+
+	lhContentReader := protocol.LeanhelixContentReader(consensusMessage.Content)
+	if !lhContentReader.IsValid() {
+		return nil
+	}
+
+	switch {
+	case lhContentReader.IsMessagePreprepareMessage():
 		message = &PreprepareMessage{
 			content: lhContentReader.PreprepareMessage(),
 			block:   consensusMessage.Block,
 		}
-	}
 
-	if lhContentReader.IsMessagePrepareMessage() {
+	case lhContentReader.IsMessagePrepareMessage():
 		message = &PrepareMessage{
 			content: lhContentReader.PrepareMessage(),
 		}
-	}
 
-	if lhContentReader.IsMessageCommitMessage() {
+	case lhContentReader.IsMessageCommitMessage():
 		message = &CommitMessage{
 			content: lhContentReader.CommitMessage(),
 		}
-		return message
-	}
 
-	if lhContentReader.IsMessageViewChangeMessage() {
+	case lhContentReader.IsMessageViewChangeMessage():
 		message = &ViewChangeMessage{
 			content: lhContentReader.ViewChangeMessage(),
 			block:   consensusMessage.Block,
 		}
-	}
 
-	if lhContentReader.IsMessageNewViewMessage() {
+	case lhContentReader.IsMessageNewViewMessage():
 		message = &NewViewMessage{
 			content: lhContentReader.NewViewMessage(),
 			block:   consensusMessage.Block,
 		}
+
+	default:
+		return nil
 	}
-	return message // handle with error
+
+	// read every (nested) field once, so that whoever gets the message can read it without panicking
+	_ = message.String()
+	return message
 }
 
 /***************************************************/
